@@ -41,6 +41,64 @@ type Beh struct {
 	SlowMS int    `json:"slow_ms,omitempty"` // the answer arrives after that much virtual time
 	Chain  string `json:"chain,omitempty"`   // kind chain (part h, redir_test.go): what each URL of a redirect walk answers
 	Hdr    string `json:"hdr,omitempty"`     // kind status over the real HTTPDeliverer (part i): one extra "Name: value" header line of the answer
+	Body   string `json:"body,omitempty"`    // kind status over the real HTTPDeliverer (part a2): what reading the answer's body does after the status line and the headers arrived (bodyShapes)
+}
+
+// bodyShapes: what becomes of the BODY of an answer whose status line and headers have arrived. The statement settles a
+// message by the status code of the answer; nothing in it lets the fate of the body change the class.
+//
+//	full      a complete 5-byte body, then EOF
+//	empty-eof a reader that answers (0, EOF) at once (a body of length 0 that is not http.NoBody)
+//	short     2 of the announced 5 bytes, then io.ErrUnexpectedEOF (the peer closed before Content-Length was reached)
+//	reset     2 bytes, then a read error "connection reset by peer" (*net.OpError)
+//	err0      a read error before the first byte (*net.OpError, reset)
+//	timeout0  a read error before the first byte that says Timeout() (an i/o timeout of the connection, not of the delivery)
+//	garbled   2 bytes, then a plain error (what a malformed chunked encoding yields)
+var bodyShapes = []string{"full", "empty-eof", "short", "reset", "err0", "timeout0", "garbled"}
+
+type scriptedBody struct {
+	data []byte
+	err  error
+}
+
+func (b *scriptedBody) Read(p []byte) (int, error) {
+	if len(b.data) > 0 {
+		n := copy(p, b.data)
+		b.data = b.data[n:]
+		return n, nil
+	}
+	return 0, b.err
+}
+func (b *scriptedBody) Close() error { return nil }
+
+type bodyTimeoutErr struct{}
+
+func (bodyTimeoutErr) Error() string   { return "i/o timeout" }
+func (bodyTimeoutErr) Timeout() bool   { return true }
+func (bodyTimeoutErr) Temporary() bool { return true }
+
+// answerBody builds the body reader and the Content-Length of an answer for a body shape ("" = http.NoBody).
+func answerBody(shape string) (io.ReadCloser, int64) {
+	rst := &net.OpError{Op: "read", Net: "tcp", Err: syscall.ECONNRESET}
+	switch shape {
+	case "":
+		return http.NoBody, 0
+	case "full":
+		return &scriptedBody{data: []byte("hello"), err: io.EOF}, 5
+	case "empty-eof":
+		return &scriptedBody{err: io.EOF}, 0
+	case "short":
+		return &scriptedBody{data: []byte("he"), err: io.ErrUnexpectedEOF}, 5
+	case "reset":
+		return &scriptedBody{data: []byte("he"), err: rst}, 5
+	case "err0":
+		return &scriptedBody{err: rst}, 5
+	case "timeout0":
+		return &scriptedBody{err: &net.OpError{Op: "read", Net: "tcp", Err: bodyTimeoutErr{}}}, 5
+	case "garbled":
+		return &scriptedBody{data: []byte("he"), err: errors.New("malformed chunked encoding")}, -1
+	}
+	panic("c06: unknown body shape " + shape)
 }
 
 func (b Beh) String() string {
@@ -56,6 +114,9 @@ func (b Beh) String() string {
 	}
 	if b.Hdr != "" {
 		s += "+{" + b.Hdr + "}"
+	}
+	if b.Body != "" {
+		s += "+body(" + b.Body + ")"
 	}
 	return s
 }
@@ -147,8 +208,9 @@ func (scriptTransport) RoundTrip(req *http.Request) (*http.Response, error) {
 		if n, v, ok := strings.Cut(b.Hdr, ":"); ok {
 			h.Set(strings.TrimSpace(n), strings.TrimSpace(v))
 		}
+		body, clen := answerBody(b.Body)
 		return &http.Response{StatusCode: b.Code, Status: fmt.Sprintf("%d x", b.Code), Proto: "HTTP/1.1", ProtoMajor: 1, ProtoMinor: 1,
-			Header: h, Body: http.NoBody, Request: req}, nil
+			Header: h, Body: body, ContentLength: clen, Request: req}, nil
 	case "transport":
 		return nil, &net.OpError{Op: "dial", Net: "tcp", Err: syscall.ECONNREFUSED}
 	case "eof":
